@@ -112,7 +112,7 @@ ADDED = {
  "C02": "Also: RemoveLock keeps the LockId index in step; cancelWaitLock selects only not-yet-answered queue entries. The holder lookup by LockId returns only live matching entries and reports a miss only after examining the inline slice and the overflow index.",
  "C04": "Also: the FIFO-to-priority-ring switch condition and the arrival-order migration; the priority bypass is decided on path facts whether or not a helper holds it.",
  "C05": "Also: sweepers re-arm an entry only after testing its tombstone clear.",
- "C06": "Also: the long-table entry is removed under the deadline read before the update; re-arm only after the tombstone test; recycled long-wait buckets are re-initialised.",
+ "C06": "Also: the long-table entry is removed under the deadline read before the update; re-arm only after the tombstone test; recycled long-wait buckets are re-initialised. The millisecond sweep must consult a field an update rewrites before ending a hold (known finding: it does not).",
  "C07": "Also: log-file lists are snapshot-first; UnLock clears the persisted mark only with removal. A pooled Lock object enters or leaves the pool with its persisted mark cleared.",
  "C08": "Also: values buffered only with records; readers never return io.ReadFull's error unmapped; oversized values written directly only with the record buffer empty. Readers return a constructed error only about a completely read item; the newest append file is cut back to whole records before appending (three reproduced crash-recovery defects were repaired).",
  "C09": "Also: receive ring >= queue capacity + 2; live append file touched only under the append mutex (a reproduced race was repaired); the ring examines all 16 id bytes.",
